@@ -43,7 +43,7 @@ def _sig_params(cls):
     if cls == "wb":
         return st.tuples(st.integers(0, 5), st.sampled_from([8, 16, 32, 64]),
                          st.sampled_from([None, 8, 16, 32, 64]), gens.wb_features(),
-                         st.sampled_from([False, True, "mixed", "mixed"])).map(list)
+                         st.sampled_from([False, True, "mixed", "mixed", "tuple", "set", "frozenset", "gen", "iter", "map", "keys"])).map(list)
     if cls == "source":
         return st.tuples(st.sampled_from(["level", "rise", "fall"]), st.booleans()).map(list)
     return st.just([])
@@ -60,6 +60,8 @@ def _sig_spec(draw):
         b = list(a)
         if a and isinstance(a[-1], bool):
             b[-1] = draw(st.booleans())    # same parameters, possibly other spelling (str vs enum)
+        elif cls == "wb":
+            b[-1] = draw(st.sampled_from([False, True, "mixed", "tuple", "set", "frozenset", "gen", "iter", "map", "keys"]))
     elif mode == "fresh":
         b = draw(_sig_params(cls))
     else:
@@ -67,7 +69,7 @@ def _sig_spec(draw):
         k = draw(st.integers(0, len(a) - 1))
         b = list(a)
         b[k] = fresh[k]
-    return {"kind": "sig", "cls": cls, "a": a, "b": b}
+    return {"kind": "sig", "cls": cls, "a": a, "b": b, "tamper": draw(st.sampled_from(gens.FEATURE_TAMPER))}
 
 
 def strategy(tier):
@@ -76,10 +78,10 @@ def strategy(tier):
 
 # ------------------------------------------------------------------------------------------
 
-stats_mixed = [False]
+stats_mixed = [False, False]
 
 
-def _make_sig(cls, p):
+def _make_sig(cls, p, tamper=None):
     """Returns (signature or None if params invalid, defining-parameter key)."""
     fresh = lambda v: int(str(v))       # a new int object (CPython only shares small ints)
     if cls == "csr":
@@ -96,14 +98,15 @@ def _make_sig(cls, p):
         aw, dw, g, feat, as_enum = p
         if g is not None and g > dw:
             g = dw
-        if as_enum == "mixed":
-            f = [wishbone.Feature(x) if k % 2 == 0 else x for k, x in enumerate(feat)]
-            stats_mixed[0] = len(feat) >= 2
-        else:
-            f = [wishbone.Feature(x) for x in feat] if as_enum else list(feat)
+        f = gens.spell_features(feat, as_enum)
+        if as_enum not in (False, True) and len(feat) >= 2:
+            stats_mixed[0] = True
+        if as_enum in ("gen", "iter", "map") and feat:
+            stats_mixed[1] = True
         kw = {} if g is None else {"granularity": g}
-        return (wishbone.Signature(addr_width=aw, data_width=dw, features=f, **kw),
-                (aw, dw, g if g is not None else dw, tuple(sorted(feat))))
+        sig = wishbone.Signature(addr_width=aw, data_width=dw, features=f, **kw)
+        gens.tamper_features(f, sig, tamper)
+        return (sig, (aw, dw, g if g is not None else dw, tuple(sorted(feat))))
     if cls == "source":
         t = event.Source.Trigger(p[0]) if p[1] else p[0]
         return event.Source.Signature(trigger=t), (p[0],)
@@ -142,12 +145,14 @@ def _expect_members(cls, key):
 def _check_sig(spec, stats):
     cls = spec["cls"]
     stats.label("sig:" + cls)
-    sa, ka = _make_sig(cls, spec["a"])
+    sa, ka = _make_sig(cls, spec["a"], spec.get("tamper"))
     sb, kb = _make_sig(cls, spec["b"])
+    stats.label("features_tampered_after_construction", cls == "wb" and spec.get("tamper") is not None)
     same = ka == kb
     stats.label("pair_equal" if same else "pair_differs")
     stats.label("mixed_feature_spelling", stats_mixed[0])
-    stats_mixed[0] = False
+    stats.label("features_one_shot_iterator", stats_mixed[1])
+    stats_mixed[0] = stats_mixed[1] = False
     stats.label("width>256", cls in ("csr", "element") and max(spec["a"][0], spec["b"][0]) > 256)
     for x, y, kx, ky in ((sa, sb, ka, kb), (sb, sa, kb, ka)):
         got = (x == y)
